@@ -5,12 +5,20 @@ save -> cmn.WriteFileAtomic, LoadFilePV) as a micro-step machine with process cr
   * `checkHRS` and `voteToStep` are NOT hand-written: they are the T1 translation of the current Go source
     (`Gen.FilePVCheck`).
   * A signing call is a sequence of micro-steps
-        check ; sign ; setMem ; openTemp ; writeTemp ; closeTemp ; rename ; unlink ; unlink ; release
+        check ; sign ; setMem ; setShadow ; openTemp ; writeTemp ; closeTemp ; rename ; unlink ; unlink ; release
     (the replay / refusal paths are  check ; release).  `Ev.crash` may occur between any two micro-steps of any
     call: the process dies, nothing is handed to the caller, and the next process starts from the key file
     (`mem := disk`).
-  * File system: `rename` is atomic and the temp file's content is durable before it (O_SYNC) -- process crashes,
-    not power loss (the directory entry is not fsync'ed by the code; see the slice's assumptions).
+  * Two records live in memory, as in the code: the outer object's five fields (`mem`, what `checkHRS` and the
+    same-HRS rule read) and the shadow copy `pv.pv` (`shadow`), which is the object `saveSigned` actually marshals
+    into the temp file.  `LoadFilePV` sets both from the key file.
+  * File system: the temp file's content is complete before the rename (O_SYNC).  `rename` being ATOMIC is an
+    explicit hypothesis of the theorems, not built into the step granularity: `Ev.crashTorn r` is a crash in the
+    middle of the rename that leaves ARBITRARY content `r` in the key file; the theorems assume every such event
+    is atomic (`r` is the old or the new content), and `Props.C04.rename_atomicity_needed` shows they fail otherwise.
+    Process crashes, not power loss (the directory entry is not fsync'ed by the code; see the slice's assumptions).
+  * Ghost logs (no influence on behaviour): `out` (everything handed to callers), `signed` (every signature the
+    key ever computed), `persisted` (every record that ever became the content of the key file).
   * Signatures are ideal: a signature names the message it signs.  Payloads carry their sign-bytes, the
     "core" (canonical form with the timestamp blanked, what `check*OnlyDifferByTimestamp` compares) and the
     canonical timestamp; the driver receives all three from the harness, which computes them with the repo's
@@ -75,6 +83,7 @@ inductive Pc where
   | check (q : Req)
   | sign (q : Req)
   | setMem (q : Req) (sg : Sig)
+  | setShadow (q : Req) (sg : Sig)
   | openTemp (q : Req) (sg : Sig)
   | writeTemp (q : Req) (sg : Sig)
   | closeTemp (q : Req) (sg : Sig)
@@ -85,15 +94,24 @@ inductive Pc where
 deriving DecidableEq, Repr, Inhabited
 
 structure St where
+  /-- content of the key file -/
   disk : Rec
+  /-- the five record fields of the FilePV object the callers hold (read by checkHRS / the same-HRS rule) -/
   mem : Rec
+  /-- the five record fields of the shadow copy `pv.pv`, the object that `save()` marshals -/
+  shadow : Rec
   temp : Option Rec
   pc : Pc
   /-- ghost: everything handed to callers so far, newest first -/
   out : List (Req × Outcome)
+  /-- ghost: every signature the key computed (`PrivKey.Sign`), newest first -/
+  signed : List (HRS × Sig)
+  /-- ghost: every record that became the content of the key file, newest first -/
+  persisted : List Rec
 deriving DecidableEq, Repr, Inhabited
 
-def St.init : St := { disk := Rec.zero, mem := Rec.zero, temp := none, pc := .idle, out := [] }
+def St.init : St :=
+  { disk := Rec.zero, mem := Rec.zero, shadow := Rec.zero, temp := none, pc := .idle, out := [], signed := [], persisted := [] }
 
 /-- the translated `checkHRS` applied to the in-memory record -/
 def checkRec (m : Rec) (q : HRS) : Bool × Int :=
@@ -121,13 +139,15 @@ def tick (s : St) : St :=
   | .check q => { s with pc := decideCall s.mem q }
   | .sign q =>
     let sg : Sig := ⟨q.p.bytes⟩
-    if q.save then { s with pc := .setMem q sg }
-    else { s with pc := .release q (.released sg q.p.ts q.p.bytes) }
-  | .setMem q sg => { s with mem := { hrs := q.hrs, sb := some q.p, sig := some sg }, pc := .openTemp q sg }
+    if q.save then { s with pc := .setMem q sg, signed := (q.hrs, sg) :: s.signed }
+    else { s with pc := .release q (.released sg q.p.ts q.p.bytes), signed := (q.hrs, sg) :: s.signed }
+  | .setMem q sg => { s with mem := { hrs := q.hrs, sb := some q.p, sig := some sg }, pc := .setShadow q sg }
+  | .setShadow q sg => { s with shadow := { hrs := q.hrs, sb := some q.p, sig := some sg }, pc := .openTemp q sg }
   | .openTemp q sg => { s with temp := none, pc := .writeTemp q sg }
-  | .writeTemp q sg => { s with temp := some s.mem, pc := .closeTemp q sg }
+  | .writeTemp q sg => { s with temp := some s.shadow, pc := .closeTemp q sg }
   | .closeTemp q sg => { s with pc := .rename q sg }
-  | .rename q sg => { s with disk := s.temp.getD s.disk, temp := none, pc := .unlink1 q sg }
+  | .rename q sg =>
+    { s with disk := s.temp.getD s.disk, temp := none, pc := .unlink1 q sg, persisted := s.temp.getD s.disk :: s.persisted }
   | .unlink1 q sg => { s with pc := .unlink2 q sg }
   | .unlink2 q sg => { s with pc := .release q (.released sg q.p.ts q.p.bytes) }
   | .release q o => { s with pc := .idle, out := (q, o) :: s.out }
@@ -136,14 +156,33 @@ inductive Ev where
   | req (q : Req)     -- a caller enters SignVote/SignProposal (ignored while a call is in flight: the mutex)
   | tick              -- the call in flight advances by one micro-step
   | crash             -- the process dies and restarts: memory is re-read from the key file
+  | crashTorn (r : Rec)  -- the process dies INSIDE the rename system call, which leaves content `r` in the key file
 deriving DecidableEq, Repr, Inhabited
+
+/-- restart: `LoadFilePV` reads the key file into the object and copies it into the shadow -/
+def restart (s : St) : St := { s with mem := s.disk, shadow := s.disk, temp := none, pc := .idle }
 
 def step (s : St) : Ev → St
   | .req q => match s.pc with
     | .idle => { s with pc := .check q }
     | _ => s
   | .tick => tick s
-  | .crash => { s with mem := s.disk, temp := none, pc := .idle }
+  | .crash => restart s
+  | .crashTorn r => match s.pc with
+    | .rename _ _ =>
+      if r = s.disk then restart s
+      else restart { s with disk := r, persisted := r :: s.persisted }
+    | _ => restart s
+
+/-- what an ATOMIC rename may leave behind when the process dies inside it: the old or the new content -/
+def Ev.atomicAt (s : St) : Ev → Prop
+  | .crashTorn r => r = s.disk ∨ r = s.temp.getD s.disk
+  | _ => True
+
+/-- every crash inside a rename along the run is atomic -/
+def AtomicRun : St → List Ev → Prop
+  | _, [] => True
+  | s, e :: rest => e.atomicAt s ∧ AtomicRun (step s e) rest
 
 def run (s : St) (evs : List Ev) : St := evs.foldl step s
 
